@@ -545,7 +545,10 @@ class Directory(object):
 
     def unregister_replica(self, replica: ComputationName, agent: AgentName):
         try:
-            self.discovery.unregister_replica(replica, agent)
+            # Do not publish: this is the directory's own discovery, the
+            # un-publication would come back to the directory later and could
+            # erase a replica registered again by the same agent in between.
+            self.discovery.unregister_replica(replica, agent, publish=False)
         except (KeyError, UnknownComputation):
             return
         # notify interested agents
